@@ -349,6 +349,13 @@ def write_evidence(prop, tier, level, coverage, wall_s, assumptions=None, violat
     tmp = path + ".tmp"
     with open(tmp, "w") as f:
         json.dump(ev, f, indent=1, default=str)
+    # full validation against the published schema (jsonschema lives in the tooling venv)
+    vt = shutil.which("python3-vt")
+    if vt and os.path.exists("/root/.vp/EVIDENCE.schema.json"):
+        chk = subprocess.run([vt, "-c", "import json,sys,jsonschema; jsonschema.validate(json.load(open(sys.argv[1])), json.load(open('/root/.vp/EVIDENCE.schema.json')))", tmp],
+                             capture_output=True, text=True)
+        if chk.returncode != 0:
+            raise ToolError("evidence for %s does not match EVIDENCE.schema.json: %s" % (prop, chk.stderr.strip().splitlines()[-1] if chk.stderr.strip() else "?"))
     os.replace(tmp, path)
     return path
 
